@@ -466,6 +466,9 @@ def c18(ctx):
     n, e = RG.rule_r6(ctx, prog, only=only)
     ctx.floor("R6", n, 8, "delegating routines in the decision table")
     RR30.rule_r30_delegating(ctx, prog, only={("QuantileExt", "quantiles_axis_mut"), ("Quantile1dExt", "quantiles_mut")})
+    # "the entry for index i of bulk selection equals single selection of i": both are proved to be the element of rank i (R25, R24)
+    RSG.rule_r25_bulk_selection(ctx, prog)
+    RSG.rule_r24_selection(ctx, prog)
     RT.rule_c18_quantiles(ctx, prog)
     RS.rule_r12_callsites(ctx, prog)
     RT.rule_c18_moments(ctx, prog)
@@ -628,6 +631,8 @@ def c19(ctx):
     RSG.rule_r25_bulk_selection(ctx, prog)
     RSG.rule_r22_partition(ctx, prog)
     RS.rule_r12_callsites(ctx, prog)      # the proved bulk selection is entered with a sorted, deduplicated index list
+    # the laws relate result j to request q_j and lane elements by logical position: no memory-order API in the quantile / selection code
+    RL.rule_r1(ctx, prog, scope=lambda b_: "quantile::" in b_.key or "sort::" in b_.key)
     eff = RE.Effect(ctx, prog, "R4")
     for n in ("partition_mut", "get_many_from_sorted_mut"):
         eff.add_entry(prog.method("Sort1dExt", n), [1])
